@@ -14,9 +14,14 @@
 package c08
 
 import (
+	"bytes"
 	"fmt"
 	"math"
+	"os"
+	"path/filepath"
 	"strings"
+
+	"github.com/tsawler/tabula"
 
 	"github.com/tsawler/tabula/core"
 	"github.com/tsawler/tabula/graphicsstate"
@@ -169,55 +174,28 @@ func runCase(c *fw.Ctx, id string, idx int) {
 			c.Fail("", cls+"/error", id, fmt.Sprintf("ExtractFromBytes: error %q on a well-formed program", err), detail)
 			return
 		}
-		byText := map[string][]text.TextFragment{}
-		for _, f := range frags {
-			byText[f.Text] = append(byText[f.Text], f)
-		}
-		for n, s := range ref.Shows {
-			fs := byText[s.Text]
-			if len(fs) != 1 {
-				detail["show"] = fmt.Sprintf("#%d %s (%s)", n, s.Operator, s.Text)
-				c.Fail("", cls+"/fragment-count", id, fmt.Sprintf("show #%d (%s %s, form depth %d) produced %d fragments, want 1", n, s.Text, s.Operator, s.FormDepth, len(fs)), detail)
-				return
-			}
-			f := fs[0]
-			c.Count("fragments_matched", 1)
-			// font size: inside the singular-value bounds of the composite scaling
-			lo := s.SizeLo*(1-relTol) - absTol
-			hi := s.SizeHi*(1+relTol) + absTol
-			if !(f.FontSize >= lo && f.FontSize <= hi) {
-				detail["show"] = fmt.Sprintf("#%d %s (%s)", n, s.Operator, s.Text)
-				kind := "bounds"
-				if s.Exact {
-					kind = "exact"
-				}
-				c.Fail("", cls+"/font-size-"+kind, id, fmt.Sprintf("show #%d (%s): FontSize %.9g outside [%.9g, %.9g] = |Tfs| x sigma(Tm) x sigma(CTM)", n, s.Text, f.FontSize, s.SizeLo, s.SizeHi), detail)
-				return
-			}
-			if s.Exact {
-				c.Count("font_sizes_compared_exact", 1)
-			} else {
-				c.Count("font_sizes_compared_bounds", 1)
-			}
-			if !s.Comparable {
-				c.Count("shows_not_compared_(after_glyph_advance)", 1)
-				continue
-			}
-			c.Count("positions_compared", 1)
-			c.Count("positions_compared:"+s.Operator, 1)
-			if s.FormDepth > 0 {
-				c.Count("positions_compared_inside_forms", 1)
-			}
-			if !within(f.X, s.X, s.Mag) || !within(f.Y, s.Y, s.Mag) {
-				detail["show"] = fmt.Sprintf("#%d %s (%s)", n, s.Operator, s.Text)
-				c.Fail("", cls+"/position/"+s.Operator, id, fmt.Sprintf("show #%d (%s %s, form depth %d): origin (%.9g, %.9g), want (0,0) x Tm x CTM = (%.9g, %.9g)", n, s.Text, s.Operator, s.FormDepth, f.X, f.Y, s.X, s.Y), detail)
-				return
-			}
-		}
-		if len(frags) != len(ref.Shows) {
-			c.Fail("", cls+"/fragment-count", id, fmt.Sprintf("%d fragments for %d show operations", len(frags), len(ref.Shows)), detail)
-		}
+		compareFragments(c, id, cls, frags, ref, detail)
 	})
+
+	// (a') the same program as the content stream of a one-page PDF file, through the public API
+	if idx%9 == 0 {
+		pcls := "pdf+" + cls
+		c.Guard(pcls, id, detail, func() {
+			path := filepath.Join(c.Work, fmt.Sprintf("c08-%d.pdf", idx))
+			if err := os.WriteFile(path, pdfFile(p), 0o644); err != nil {
+				c.Inconclusive("cannot write scratch PDF: " + err.Error())
+				return
+			}
+			defer os.Remove(path)
+			frags, _, err := tabula.Open(path).Fragments()
+			if err != nil {
+				c.Fail("", pcls+"/error", id, fmt.Sprintf("tabula.Open(one-page PDF).Fragments(): error %q", err), detail)
+				return
+			}
+			c.Count("pdf_documents_extracted", 1)
+			compareFragments(c, id, pcls, frags, ref, detail)
+		})
+	}
 
 	// (b) graphics extractor: line end-points under the same cm / q / Q
 	if len(ref.Lines) > 0 || idx%8 == 0 {
@@ -241,6 +219,59 @@ func runCase(c *fw.Ctx, id string, idx int) {
 				}
 			}
 		})
+	}
+}
+
+// compareFragments matches fragments to the predicted shows by token text and
+// checks font size and, for the first show after a positioning step, origin.
+func compareFragments(c *fw.Ctx, id, cls string, frags []text.TextFragment, ref *imaging.Interp, detail map[string]any) {
+	byText := map[string][]text.TextFragment{}
+	for _, f := range frags {
+		byText[f.Text] = append(byText[f.Text], f)
+	}
+	for n, s := range ref.Shows {
+		fs := byText[s.Text]
+		if len(fs) != 1 {
+			detail["show"] = fmt.Sprintf("#%d %s (%s)", n, s.Operator, s.Text)
+			c.Fail("", cls+"/fragment-count", id, fmt.Sprintf("show #%d (%s %s, form depth %d) produced %d fragments, want 1", n, s.Text, s.Operator, s.FormDepth, len(fs)), detail)
+			return
+		}
+		f := fs[0]
+		c.Count("fragments_matched", 1)
+		// font size: inside the singular-value bounds of the composite scaling
+		lo := s.SizeLo*(1-relTol) - absTol
+		hi := s.SizeHi*(1+relTol) + absTol
+		if !(f.FontSize >= lo && f.FontSize <= hi) {
+			detail["show"] = fmt.Sprintf("#%d %s (%s)", n, s.Operator, s.Text)
+			kind := "bounds"
+			if s.Exact {
+				kind = "exact"
+			}
+			c.Fail("", cls+"/font-size-"+kind, id, fmt.Sprintf("show #%d (%s): FontSize %.9g outside [%.9g, %.9g] = |Tfs| x sigma(Tm) x sigma(CTM)", n, s.Text, f.FontSize, s.SizeLo, s.SizeHi), detail)
+			return
+		}
+		if s.Exact {
+			c.Count("font_sizes_compared_exact", 1)
+		} else {
+			c.Count("font_sizes_compared_bounds", 1)
+		}
+		if !s.Comparable {
+			c.Count("shows_not_compared_(after_glyph_advance)", 1)
+			continue
+		}
+		c.Count("positions_compared", 1)
+		c.Count("positions_compared:"+s.Operator, 1)
+		if s.FormDepth > 0 {
+			c.Count("positions_compared_inside_forms", 1)
+		}
+		if !within(f.X, s.X, s.Mag) || !within(f.Y, s.Y, s.Mag) {
+			detail["show"] = fmt.Sprintf("#%d %s (%s)", n, s.Operator, s.Text)
+			c.Fail("", cls+"/position/"+s.Operator, id, fmt.Sprintf("show #%d (%s %s, form depth %d): origin (%.9g, %.9g), want (0,0) x Tm x CTM = (%.9g, %.9g)", n, s.Text, s.Operator, s.FormDepth, f.X, f.Y, s.X, s.Y), detail)
+			return
+		}
+	}
+	if len(frags) != len(ref.Shows) {
+		c.Fail("", cls+"/fragment-count", id, fmt.Sprintf("%d fragments for %d show operations", len(frags), len(ref.Shows)), detail)
 	}
 }
 
@@ -320,4 +351,82 @@ func Run(c *fw.Ctx) {
 	if c.Only == "" && c.Counter("positions_compared") < int64(n) {
 		c.Inconclusive(fmt.Sprintf("only %d positions compared in %d programs", c.Counter("positions_compared"), n))
 	}
+}
+
+// pdfFile wraps the program in a minimal one-page PDF (classic xref table).
+func pdfFile(p *program) []byte {
+	var objs []string // objs[i] is object i+1
+	add := func(body string) int { objs = append(objs, body); return len(objs) }
+	stream := func(dict string, data []byte) string {
+		return fmt.Sprintf("<<%s/Length %d>>\nstream\n%s\nendstream", dict, len(data), data)
+	}
+	add("<</Type/Catalog/Pages 2 0 R>>")
+	add("<</Type/Pages/Kids[3 0 R]/Count 1>>")
+	add("") // page, filled in below
+	add(stream("", render(p.ops)))
+	f1 := add("<</Type/Font/Subtype/Type1/BaseFont/Helvetica>>")
+	f2 := add("<</Type/Font/Subtype/Type1/BaseFont/Times-Roman>>")
+	f3 := add("<</Type/Font/Subtype/Type1/BaseFont/Courier>>")
+	fonts := fmt.Sprintf("/Font<</F1 %d 0 R/F2 %d 0 R/F3 %d 0 R>>", f1, f2, f3)
+	numOf := map[string]int{}
+	for n := 1; n <= len(p.forms); n++ {
+		numOf[fmt.Sprintf("Fm%d", n)] = len(objs) + n
+	}
+	xobj := func(names []string) string {
+		var sb strings.Builder
+		sb.WriteString("/XObject<<")
+		for _, n := range names {
+			fmt.Fprintf(&sb, "/%s %d 0 R", n, numOf[n])
+		}
+		sb.WriteString(">>")
+		return sb.String()
+	}
+	child := map[string]bool{}
+	for _, f := range p.forms {
+		for _, ch := range f.children {
+			child[ch] = true
+		}
+	}
+	var top []string
+	for n := 1; n <= len(p.forms); n++ {
+		name := fmt.Sprintf("Fm%d", n)
+		f := p.forms[name]
+		if !child[name] {
+			top = append(top, name)
+		}
+		d := "/Type/XObject/Subtype/Form/BBox[-10000 -10000 10000 10000]"
+		if f.hasMatrix {
+			d += "/Matrix["
+			for _, m := range f.matrix {
+				d += m.text + " "
+			}
+			d += "]"
+		}
+		res := ""
+		if len(f.children) > 0 {
+			res += xobj(f.children)
+		}
+		if f.ownFonts {
+			res += fonts
+		}
+		if res != "" {
+			d += "/Resources<<" + res + ">>"
+		}
+		add(stream(d, render(f.ops)))
+	}
+	objs[2] = "<</Type/Page/Parent 2 0 R/MediaBox[0 0 612 792]/Resources<<" + fonts + xobj(top) + ">>/Contents 4 0 R>>"
+	var b bytes.Buffer
+	b.WriteString("%PDF-1.4\n")
+	offs := make([]int, len(objs))
+	for i, o := range objs {
+		offs[i] = b.Len()
+		fmt.Fprintf(&b, "%d 0 obj\n%s\nendobj\n", i+1, o)
+	}
+	xref := b.Len()
+	fmt.Fprintf(&b, "xref\n0 %d\n0000000000 65535 f \n", len(objs)+1)
+	for _, o := range offs {
+		fmt.Fprintf(&b, "%010d 00000 n \n", o)
+	}
+	fmt.Fprintf(&b, "trailer\n<</Size %d/Root 1 0 R>>\nstartxref\n%d\n%%%%EOF\n", len(objs)+1, xref)
+	return b.Bytes()
 }
